@@ -27,6 +27,15 @@ def run(ctx):
         ctx.seed -= 5000
     else:
         ctx.corr(hx, ["hist", "--n", "1000", "--len", "40"])
+    # several instances in different realms of ONE database (store views with empty / 1-byte / multi-byte / prefix-related /
+    # internal-sub-realm-byte realms), interleaved histories, reopen and wipe of each; model: Shared.v (one flat KV)
+    if thorough:
+        for k in range(3):
+            ctx.seed += 1000
+            ctx.corr(hx, ["realms", "--n", "1500", "--len", "60"], cases_name="realms%d.v" % k)
+        ctx.seed -= 3000
+    else:
+        ctx.corr(hx, ["realms", "--n", "400", "--len", "40"], cases_name="realms.v")
     # concurrent families: ties the model's "each method is one atomic step" to the code (judged in Go, no Coq cases)
     if thorough:
         ctx.corr(hx, ["conc", "--rounds", "12", "--ms", "400"], cases_name="conc.v")
@@ -34,7 +43,11 @@ def run(ctx):
     else:
         ctx.corr(hx, ["conc", "--rounds", "4", "--ms", "250"], cases_name="conc.v")
     ctx.assumptions += [
-        "one live instance per store at a time (reopen = drop the instance, construct a new one over the same mapdb)",
+        "one live instance per store view at a time (reopen = drop the instance, construct a new one over the same view); "
+        "several instances may share ONE database when their store views have separated realms (the realms diverge, or one "
+        "is a proper prefix of the other and continues with a byte >= 4): C09_shared_db_refines / C09_instances_independent, "
+        "tied to the code by hx-c09 realms; Clear() of a view only when its realm is not a prefix of a sibling's realm; the "
+        "database is modelled as a flat key-value list with prefix iteration and prefix delete (mapdb's own properties are C06)",
         "ATOMICITY: the model and every C09 theorem treat each Map/Set method call (Set/Add/Delete/Commit and also the "
         "reads Has/Get/Root/Size/Stream/WasRestoredFromStorage) as ONE atomic step of a sequential history; the theorems "
         "quantify over sequential histories only. In the code this holds because every method runs under the instance's "
@@ -99,6 +112,12 @@ def replay(ctx, obj):
         ctx.corr(hx, ["conc", "--replay", path, "--repeat", "10"], cases_name="replay_conc.v")
     elif isinstance(case, dict) and case.get("conc_race"):
         conc_race(ctx, list(case.get("args") or ["conc", "--rounds", "6", "--ms", "400"]))
+    elif isinstance(case, dict) and "realms" in case:
+        hx = ctx.go_build("c09")
+        ctx.proof_side(DIRS, "Properties/C09.v")
+        path = os.path.join(ctx.build, "replay_realms.json")
+        json.dump({"realms": case["realms"]}, open(path, "w"))
+        ctx.corr(hx, ["realms", "--replay", path], cases_name="replay_realms.v")
     elif isinstance(case, dict) and "history" in case:
         hx = ctx.go_build("c09")
         ctx.proof_side(DIRS, "Properties/C09.v")
